@@ -319,9 +319,14 @@ func (i *IRCServer) Unmarshal(data []byte) (uint64, error) {
 	if err != nil {
 		return 0, err
 	}
-	hmacSecret, err := hex.DecodeString(snapshot.Config.CaptchaHmacSecret)
-	if err != nil {
-		return 0, err
+	// An unset secret must stay nil (not become empty): captchaConfigured()
+	// and the TOML representation (GET /config) distinguish the two.
+	var hmacSecret []byte
+	if snapshot.Config.CaptchaHmacSecret != "" {
+		hmacSecret, err = hex.DecodeString(snapshot.Config.CaptchaHmacSecret)
+		if err != nil {
+			return 0, err
+		}
 	}
 	i.Config = config.Network{
 		Revision: snapshot.Config.Revision,
